@@ -18,6 +18,7 @@ import numpy as np
 from hypothesis import strategies as st
 
 from vf import solvecase as SC
+from vf import strategies as S
 from vf.clock import PatternClock, StepClock, virtual_clock
 from vf.runner import excluded, ok, trivial, violation
 from vf.trace import make_tracing_solver, quiet_logging, run_solve
@@ -70,6 +71,25 @@ def strategy(tier):
             )
         )
         case["observers"] = [draw(OBS), draw(OBS)]
+        if draw(st.integers(0, 4)) == 0:
+            # condition-estimate stress: a dyadic negative Hessian diagonal meets lambda = 2^-k exactly, so
+            # the reduced Newton matrix becomes singular and the (reporting-only) condition estimate
+            # fails or degenerates -- with report_rcond on, that must not change or abort the solve
+            n = draw(st.integers(1, 3))
+            d = [-(draw(st.integers(1, 8)) / 8.0) for _ in range(n)]
+            spec = {"n": n, "m": 0, "Q": np.diag(d).tolist(), "q": S.dvec(draw, n), "A": [], "b": [], "cl": [], "cu": [],
+                    "lb": [draw(st.sampled_from([-4.0, -1.0, -float("inf")])) for _ in range(n)],
+                    "ub": [draw(st.sampled_from([4.0, 1.0, float("inf")])) for _ in range(n)],
+                    "fmt": draw(S.FMT), "family": "rcond_stress"}
+            case["spec"] = spec
+            case["start"] = draw(S.start_point(spec))
+            case["scaling"] = {"kind": "none"}
+            case["params"]["lamb_init"] = 1.0
+            case["params"]["step_control_type"] = draw(st.sampled_from(["Exact", "DistanceRatio", "ResiduumRatio"]))
+            case["params"]["linear_solver_type"] = draw(st.sampled_from(["MINRES", "GMRES", "LU"]))
+            case["params"]["step_solver_type"] = "Symmetric" if case["params"]["linear_solver_type"] == "MINRES" else draw(st.sampled_from(S.STEP_SOLVERS))
+            for o in case["observers"]:
+                o["report_rcond"] = True
         return case
 
     return _s()
